@@ -52,6 +52,13 @@ def register(R):
             # _main is not invoked for a transfer that was already done (failed / cancelled) when checked
             'main_only_if_not_done_at_the_check': z3.And([B(True)] + [
                 _not_done_before(tr, e) for e in em]),
+            # ... and that check comes after the dependencies were waited for and their results gathered, so a
+            # failure recorded by any dependency is seen (a failed part must keep the final step from running)
+            'done_check_follows_waiting_and_gathering': B(all(
+                [r for r in tr[:index_of(tr, e)] if r.kind == 'read' and r.name == '_status'] and
+                index_of(tr, [r for r in tr[:index_of(tr, e)] if r.kind == 'read' and r.name == '_status'][-1]) >
+                max([index_of(tr, x) for x in calls(tr, 'Task._get_all_main_kwargs') + calls(tr, 'Task._wait_on_dependent_futures')] or [-1])
+                and len(calls(tr, 'Task._get_all_main_kwargs')) == 1 for e in em)),
             'done_callbacks_always_run': B(len(loops) == 1),
             'announce_iff_final': z3.If(is_final, B(len(ann) == 1), B(len(ann) == 0)),
             'announce_is_last': B(all(index_of(tr, a) == len(tr) - 1 for a in ann)),
